@@ -403,6 +403,7 @@ class History:
                         v = "foreign" if kd != "O" else 3.5
                     row.append(v)
                 del FIN_LOG[:]
+                before_state = df_state(df)
                 try:
                     with warnings.catch_warnings():
                         warnings.simplefilter("ignore")
@@ -411,7 +412,12 @@ class History:
                     self._record(["OPandas", list(FIN_LOG), True, st, empty], False)
                 except Exception as e:
                     st, empty = df_state(df)
-                    self._record(["OPandas", list(FIN_LOG), True, st, empty], True, type(e).__name__)
+                    if any(ev["raised"] for ev in FIN_LOG):
+                        self._record(["OPandas", list(FIN_LOG), True, st, empty], True, type(e).__name__)
+                    elif (st, empty) == before_state:
+                        self._failed_pandas(op, e)      # pandas itself refused the value (also on a plain DataFrame)
+                    else:
+                        self._record(["OData", st, empty], False)   # pandas changed the data before refusing
                 return
             elif name == "df_restore":
                 if not self.saved:
